@@ -235,7 +235,13 @@ def oracle(case, real, model):
         what = "Open()" if c[0] == 2 else "%s(descriptor %d, type 0x%02x)" % ("ProcessDescriptor" if c[0] == 0 else "Close", c[1], pool[c[1]][1])
         return "call %d %s: %s (Spec/Trackers.v clause %d)" % (k, what, CLAUSE.get(code, "?"), code)
     if real != model:
-        return "the trace checker accepts the real observations but they differ from the model's (correspondence Model/State.v vs scte35/state.go)"
+        # the property (as the trace checker reads it) holds on this history, but the tie model = code is broken here:
+        # not a failing input by itself (DESIGN 5.2).  Shrinking and searching only follow checker violations.
+        if case.kind in ("search", "shrink"):
+            return ""
+        case.decides = False
+        return ("the trace checker accepts the real observations but they differ from the model's "
+                "(correspondence Model/State.v State.run vs scte35/state.go; the theorems no longer transport)")
     return ""
 
 
@@ -269,7 +275,7 @@ def shrink(c):
             d = list(pool[old]); d[0] = ren[old]; p2.append(d)
         ptok2 = "[ " + " ".join(vlib.fmt_val(d).replace("[", "[ ").replace("]", " ]") for d in p2) + " ]"
         sc2 = [(cc[0], ren[cc[1]]) if cc[0] != 2 else (2,) for cc in script]
-        yield Case("trk.hist %s [ %s ]" % (ptok2, " ".join(call_tok(cc) for cc in sc2)), kind=c.kind, decides=True, theorem=c.theorem)
+        yield Case("trk.hist %s [ %s ]" % (ptok2, " ".join(call_tok(cc) for cc in sc2)), kind="shrink", decides=True, theorem=c.theorem)
     ptok = "[ " + " ".join(vlib.fmt_val(d).replace("[", "[ ").replace("]", " ]") for d in pool) + " ]"
     n = len(script)
     size = max(1, n // 2)
@@ -284,11 +290,22 @@ def shrink(c):
         size //= 2
     for rest in cands:
         yield Case("trk.hist %s [ %s ]" % (ptok, " ".join("[ " + " ".join(str(x) for x in cc) + " ]" for cc in rest)),
-                   kind=c.kind, decides=True, theorem=c.theorem)
+                   kind="shrink", decides=True, theorem=c.theorem)
 
 
 def search(c, rng):
-    for x in exhaustive(ALPHA, REDUCED_P, REDUCED_C, 4, "search"):
+    """neighbourhood of a history on which model and code disagree: its prefixes and single-call deletions, then the
+    small-scope enumeration; only checker violations count as found"""
+    try:
+        pool, script = script_of(c.line)
+        ptok = "[ " + " ".join(vlib.fmt_val(d).replace("[", "[ ").replace("]", " ]") for d in pool) + " ]"
+        for k in range(len(script)):
+            rest = script[:k] + script[k + 1:]
+            if rest:
+                yield Case("trk.hist %s [ %s ]" % (ptok, " ".join("[ " + " ".join(str(x) for x in cc) + " ]" for cc in rest)), kind="search")
+    except Exception:
+        pass
+    for x in exhaustive(ALPHA, REDUCED_P, REDUCED_C, 3, "search"):
         yield x
 
 
